@@ -37,8 +37,7 @@ def _is_all_blocking(t) -> bool:
 def _ts_max_candidates(q_start):
     """Reference terms for 'latest arrival the blocking inputs wait for, 0 if there are none', built from the
     comprehension L that pops q_ts_max (found by provenance)."""
-    Ls = [x for x in T.walk(q_start) if x[0] == "comp" and x[2][0] == "call" and isinstance(x[2][1], str)
-          and x[2][1].endswith(".q_ts_max.popleft")]
+    Ls = [x for x in T.walk(q_start) if x[0] == "comp" and x[2][0] == "call" and T.call_name(x[2]).endswith(".q_ts_max.popleft")]
     out = []
     for L in Ls:
         if not _blocking_filter(L):
